@@ -303,7 +303,22 @@ def r13_5(chk):
         wr = g.nodes_containing(lambda x: isinstance(x, ast.Call) and norm(x.func) in ("self._write", "self.drop_not_completed"))
         ok = bool(sup) and all(g.dominated_by(w, sup)[0] for w in wr)
         chk.decide(ok, "R13.5", key(s, f"DataStoreSqlite.{meth}", "check before db write"), s.loc(f2), "super().<write>() (mode check) dominates every db mutation", "a db mutation is reachable before the base-class mode check")
-    chk.floor("R13.5", 8, "2 guards + 3 base writes + 3 sqlite writes")
+    # the directory store: the full check (READONLY and APPEND-overwrite) precedes the storage write of every public write,
+    # directly or through the base-class write that _write calls
+    dci = m.cls("DataStoreDirectory")
+    inner = dci.methods["_write"]
+    gi = build(inner)
+    inner_checks = gi.nodes_containing(lambda x: isinstance(x, ast.Call) and (norm(x.func) == "self._check_writable" or (isinstance(x.func, ast.Attribute) and isinstance(x.func.value, ast.Call) and call_name(x.func.value) == "super" and x.func.attr in ("write", "write_not_completed", "write_log"))))
+    inner_store = gi.nodes_containing(lambda x: _is_mutation(x) and (call_name(x) or "").split(".")[-1] in ("open_", "open"))
+    inner_ok = bool(inner_checks) and all(gi.dominated_by(w, inner_checks)[0] for w in inner_store)
+    for meth in ("write", "write_not_completed", "write_log"):
+        f2 = dci.methods[meth]
+        g = build(f2)
+        own = g.nodes_containing(lambda x: isinstance(x, ast.Call) and norm(x.func) == "self._check_writable")
+        wr = g.nodes_containing(lambda x: isinstance(x, ast.Call) and norm(x.func) == "self._write")
+        ok = bool(wr) and (inner_ok or (bool(own) and all(g.dominated_by(w, own)[0] for w in wr)))
+        chk.decide(ok, "R13.5", key(m, f"DataStoreDirectory.{meth}", "full check before the storage write"), m.loc(f2), "_check_writable (READONLY and APPEND-overwrite) precedes the file write", "no _check_writable on the way to the file write: an APPEND store silently overwrites an existing record")
+    chk.floor("R13.5", 11, "2 guards + 3 base writes + 3 sqlite writes + 3 directory writes")
 
 
 def r13_6(chk):
